@@ -273,8 +273,10 @@ pub fn vx_apid_candidate(trimmed_tag: &str, iteration: u16) -> (r: DltChar4) { u
 //@ extract src/utils/mod.rs region `let mut iteration = 0u16;` .. `$end` in fn get_apid_for_tag
 //@   sig pub fn apid_numbering(map: &mut VxTagMap, tag: &str, trimmed_tag: &str) -> (r: DltChar4)
 //@   sub R11 `match trimmed_tag.len() { __ }` => `vx_apid_candidate(trimmed_tag, iteration)`
-//@   sub R12 `map.iter().find(|(_k, v)| v == &&apid)` => `map.vx_find_apid(&apid)` ?
-//@   sub R12 `map.iter().any(|(_k, v)| v == &apid)` => `map.vx_apid_taken(&apid)` ?
+//@   sub R12 `map.iter().find(__)` => `map.vx_find_apid(&apid)` ?
+//@   sub R12 `map.iter().any(__)` => `map.vx_apid_taken(&apid)` ?
+//@   sub R12 `map.values().any(__)` => `map.vx_apid_taken(&apid)` ?
+//@   sub R12 `map.values().find(__)` => `map.vx_find_apid(&apid)` ?
 //@   sub R12 `map.insert(tag.to_owned(), apid.to_owned())` => `map.vx_insert(tag, apid.to_owned())`
 //@   spec
 //@|    ensures true, // O:asc.apid.numbering_ends (termination and no counter overflow for every content of the map)
